@@ -1,6 +1,7 @@
 import TD.C20.Lemmas
 import TD.C20.LemDat
 import TD.C20.LemEnc
+import TD.C20.LemLis
 
 /-!
 # C20 — file type identification recognises every supported format and never crashes
@@ -220,6 +221,44 @@ example : LisHead [0, 62, 0, 0, 128, 0, 82, 85, 78, 79, 110, 101, 46, 108, 105, 
 example : LisHead [0, 0, 0, 0, 0, 0, 0, 0, 144, 0, 0, 0, 0, 132, 0, 0, 132, 0, 83, 69] :=
   ⟨by decide, by decide, by decide, by decide, by decide, ⟨16, by decide, by decide⟩⟩
 
+
+/-- what `_lis` must answer for a layout: `LIS`, `LISt` (TIF markers), `LIStr` (reversed TIF markers) -/
+def lisCodeOf : TD.C05.TifMode → LisRes
+  | .off => .lis
+  | .le => .list
+  | .be => .listr
+
+/-- **LIS — every file of the C05 encoder that begins with a reel/tape/file header** (`TD.C05.encode`, proved to be what
+`File.FileWrite` writes: `TD.C05.writer_layout`).  For every valid layout — any trailer options, TIF off / normal /
+reversed, any maximum physical record length (without TIF markers: one that leaves at least 13 payload bytes in the
+first physical record, so that the header's first name field is not cut) — every header record `r0`
+(`LisHeaderRec`: type 128/130/132, 58 or 128 bytes, printable name bytes, filler at offset 12) and every list of further
+records `rs` (any content, any size):
+(a) PROVED: no earlier test of the generated order claims the file (`LisHead` derived from the encoder's bytes; the
+    276-byte TIF exclusion is vacuous here because a header record gives a first physical record of at most 138 bytes);
+(b) ASSUMED, as hypothesis `hdeep`: the deep test `_lis` answers the layout's code on this file.  `_lis` runs
+    `file_read_with_best_physical_record_pad_settings` (six pad settings, `keepGoing=True`, 100 records) and
+    `FileIndexer.FileIndex`; the C05 reader model covers `keepGoing=False, pad_modulo=0` and the C06 index model its own
+    record stream, so composing `read_refines`/`index_lists_all` would not be a statement about what `_lis` executes.
+    (b) is exercised on every run by the oracle on files written by `File.FileWrite` in all these layouts.
+Then the file is identified as `LIS` / `LISt` / `LIStr` according to its TIF mode. -/
+theorem lis_identified_c05 (lisT : Bytes → LisRes) (datP : Bytes → Bool) (L : TD.C05.Layout) (hL : L.Valid)
+    (r0 : Bytes) (rs : List Bytes) (hhdr : LisHeaderRec r0) (hmp : L.tif = .off → 13 ≤ L.maxPayload)
+    (hdeep : lisT (TD.C05.encode L (r0 :: rs)) = lisCodeOf L.tif) :
+    identify lisT datP (TD.C05.encode L (r0 :: rs)) = (lisCodeOf L.tif).code := by
+  obtain ⟨h1, h2, h3, h4, h5, h6⟩ := lisHead_encode L hL r0 rs hhdr hmp
+  rw [lis_family_identified_partial lisT datP _ ⟨h1, h2, h3, h4, h5, h6⟩, hdeep]
+
+/-- (a) alone: on such a file the answer is exactly what the deep test says -/
+theorem lis_encoded_not_shadowed (lisT : Bytes → LisRes) (datP : Bytes → Bool) (L : TD.C05.Layout) (hL : L.Valid)
+    (r0 : Bytes) (rs : List Bytes) (hhdr : LisHeaderRec r0) (hmp : L.tif = .off → 13 ≤ L.maxPayload) :
+    identify lisT datP (TD.C05.encode L (r0 :: rs)) = (lisT (TD.C05.encode L (r0 :: rs))).code := by
+  obtain ⟨h1, h2, h3, h4, h5, h6⟩ := lisHead_encode L hL r0 rs hhdr hmp
+  exact lis_family_identified_partial lisT datP _ ⟨h1, h2, h3, h4, h5, h6⟩
+
+/-- a file header record (`RUNOne.lis`, NUL filler) is a `LisHeaderRec` -/
+example : LisHeaderRec ([128, 0, 82, 85, 78, 79, 110, 101, 46, 108, 105, 115, 0, 0] ++ List.replicate 44 32) :=
+  ⟨Or.inl (by simp), by decide, by decide, by decide⟩
 
 /-! ## Recognition: BIT -/
 
